@@ -31,10 +31,13 @@ CONSTANTS Mode,        \* "MR" | "TAB"
 PSeq == <<Ex(2, 1, "int"), Ex(3, 1, "int"), Ex(-1, 1, "int"), Ex(-2, 1, "int"), Ex(-3, 1, "int"),
           Ex(1, 2, "frac"), Ex(1, 3, "frac"), Ex(-1, 2, "frac"), Ex(3, 2, "sym"), Ex(-2, 3, "sym"),
           Ex(1, 2, "float"), Ex(1, 3, "float"), Ex(2, 3, "float"), Ex(1, 4, "float"), Ex(2, 1, "float"),
-          Ex(1, 3, "dec2"), Ex(2, 3, "dec2"), Ex(0, 1, "int"), Ex(1, 1, "int"), Ex(1, 6, "float"), Ex(-1, 2, "float"), Ex(-3, 2, "dec2")>>
+          Ex(1, 3, "dec2"), Ex(2, 3, "dec2"), Ex(0, 1, "int"), Ex(1, 1, "int"), Ex(1, 6, "float"), Ex(-1, 2, "float"), Ex(-3, 2, "dec2"),
+          \* spellings read as n/d whose float value is not n/d (and two exact ones of the same types)
+          Ex(1, 3, "dec7"), Ex(2, 3, "f32"), Ex(-1, 3, "dcm"), Ex(4, 3, "strd"), Ex(1, 7, "dec7"), Ex(1, 10, "f32"), Ex(7, 10, "f16"),
+          Ex(2, 3, "str"), Ex(5, 6, "np64"), Ex(3, 2, "f32"), Ex(-2, 3, "dec7")>>
 QSeq == <<Ex(2, 1, "int"), Ex(3, 1, "int"), Ex(-1, 1, "int"), Ex(1, 2, "frac"), Ex(1, 3, "float"), Ex(3, 2, "float"),
-          Ex(-2, 3, "sym"), Ex(6, 1, "int")>>
-SimpPSeq == <<Ex(1, 1, "int"), Ex(2, 1, "int"), Ex(-1, 1, "int"), Ex(1, 2, "frac"), Ex(3, 2, "float"), Ex(-2, 1, "int")>>
+          Ex(-2, 3, "sym"), Ex(6, 1, "int"), Ex(1, 3, "f32"), Ex(3, 1, "np64"), Ex(2, 3, "dec7"), Ex(7, 1, "f32")>>
+SimpPSeq == <<Ex(1, 1, "int"), Ex(2, 1, "int"), Ex(-1, 1, "int"), Ex(1, 2, "frac"), Ex(3, 2, "float"), Ex(-2, 1, "int"), Ex(2, 3, "dec7"), Ex(1, 3, "f32")>>
 
 (* ------------------------------ the cases -------------------------------- *)
 Tab == IF Mode = "TAB" THEN JsonDeserialize(IOEnv.TAB) ELSE <<>>
